@@ -1,6 +1,10 @@
 import SparseSpace.Lemmas.Combi
 import Mathlib.Algebra.Group.Defs
+import Mathlib.Algebra.Group.Basic
 import Mathlib.Algebra.BigOperators.Group.List.Basic
+import Mathlib.Tactic.Abel
+import Mathlib.Algebra.Ring.Rat
+import Mathlib.Data.Int.Cast.Lemmas
 /-!
 # L2 — the combination lemma (pure mathematics, no code counterpart)
 
@@ -9,11 +13,256 @@ set `J` (this is what C01 proves of the adaptive scheme), `k ∈ J`, and `F` onl
 support, then the combination `Σ c_l • F l` collapses to `F k`.
 Instances: `F = const` (coefficients sum to 1), `F l = [x ∈ grid_l]` (point-wise coefficient sums),
 `F l = (I_l f)(x)` (nodal exactness), `F l = Q_l u` (exactness on a function space).
+
+Proof: induction on the dimension (`collapse_aux`); in each dimension the first coordinate is capped at
+`lmin + j` and `j` is raised one by one (`collapse_step`, using the one-step difference `wsum_cap_succ`), the
+two correction terms being weighted sums over the tails of the level vectors with first coordinate
+`≥ lmin + j + 1` (`tlGe`), whose dominated sums are dominated sums of `c` (`domSum_tlGe`).
 -/
 namespace SparseSpace
 
 /-- componentwise minimum -/
 def meet (a b : LV) : LV := List.zipWith min a b
+
+theorem meet_idem : ∀ (l k : LV), meet (meet l k) k = meet l k
+  | [], _ => by simp [meet]
+  | _ :: _, [] => by simp [meet]
+  | a :: l, b :: k => by
+      have h := meet_idem l k
+      simp only [meet, List.zipWith_cons_cons] at h ⊢
+      rw [h]
+      congr 1
+      omega
+
+theorem meet_self : ∀ (k : LV), meet k k = k
+  | [] => by simp [meet]
+  | a :: k => by
+      have h := meet_self k
+      simp only [meet, List.zipWith_cons_cons] at h ⊢
+      rw [h]
+      congr 1
+      omega
+
+theorem meet_cons (a b : Int) (l k : LV) : meet (a :: l) (b :: k) = min a b :: meet l k := rfl
+
+theorem domSum_nil (t : LV) : domSum [] t = 0 := rfl
+
+theorem domSum_cons (p : LV × Int) (c : List (LV × Int)) (t : LV) :
+    domSum (p :: c) t = (if leAll t p.1 = true then p.2 else 0) + domSum c t := by
+  unfold domSum
+  by_cases h : leAll t p.1 = true <;> simp [h]
+
+/-- tails (with weights) of the entries whose first coordinate is `≥ y` -/
+def tlGe (y : Int) (c : List (LV × Int)) : List (LV × Int) :=
+  (c.filter (fun p => decide (y ≤ p.1.headD 0))).map (fun p => (p.1.tail, p.2))
+
+theorem tlGe_nil (y : Int) : tlGe y [] = [] := rfl
+
+theorem tlGe_cons (y : Int) (p : LV × Int) (c : List (LV × Int)) :
+    tlGe y (p :: c) = if y ≤ p.1.headD 0 then (p.1.tail, p.2) :: tlGe y c else tlGe y c := by
+  simp only [tlGe, List.filter_cons, decide_eq_true_eq]
+  split <;> simp only [List.map_cons]
+
+/-- first coordinate capped at `κ` -/
+def cap (κ : Int) (c : List (LV × Int)) : List (LV × Int) :=
+  c.map (fun p => (min (p.1.headD 0) κ :: p.1.tail, p.2))
+
+theorem cap_nil (κ : Int) : cap κ [] = [] := rfl
+
+theorem cap_cons (κ : Int) (p : LV × Int) (c : List (LV × Int)) :
+    cap κ (p :: c) = (min (p.1.headD 0) κ :: p.1.tail, p.2) :: cap κ c := rfl
+
+theorem domSum_tlGe (y : Int) (t : LV) (c : List (LV × Int)) (hne : ∀ p ∈ c, p.1 ≠ []) :
+    domSum (tlGe y c) t = domSum c (y :: t) := by
+  induction c with
+  | nil => rfl
+  | cons p c ih =>
+    have ih' := ih (fun q hq => hne q (List.mem_cons_of_mem _ hq))
+    obtain ⟨l, w⟩ := p
+    cases l with
+    | nil => exact absurd rfl (hne ([], w) (List.mem_cons_self ..))
+    | cons x l =>
+      rw [tlGe_cons, domSum_cons]
+      by_cases h : y ≤ x
+      · simp only [List.headD_cons, h, if_true, List.tail_cons, leAll, decide_true, Bool.true_and]
+        rw [domSum_cons, ih']
+      · simp only [List.headD_cons, h, if_false, leAll, decide_false, Bool.false_and]
+        rw [ih']
+        simp
+
+theorem shape_tlGe (lmin : Int) (n : Nat) (y : Int) (c : List (LV × Int))
+    (hshape : ∀ p ∈ c, p.1.length = n + 1 ∧ geAll lmin p.1) :
+    ∀ q ∈ tlGe y c, q.1.length = n ∧ geAll lmin q.1 := by
+  intro q hq
+  unfold tlGe at hq
+  rw [List.mem_map] at hq
+  obtain ⟨p, hp, rfl⟩ := hq
+  have hp' := hshape p (List.mem_of_mem_filter hp)
+  constructor
+  · simp [hp'.1]
+  · intro x hx
+    exact hp'.2 x (List.mem_of_mem_tail hx)
+
+section
+variable {V : Type} [AddCommGroup V]
+
+/-- the weighted sum `Σ_{(l,w) ∈ c} w • G l` -/
+def wsum (c : List (LV × Int)) (G : LV → V) : V := (c.map fun p => p.2 • G p.1).sum
+
+theorem wsum_nil (G : LV → V) : wsum [] G = 0 := rfl
+
+theorem wsum_cons (p : LV × Int) (c : List (LV × Int)) (G : LV → V) :
+    wsum (p :: c) G = p.2 • G p.1 + wsum c G := by
+  simp [wsum]
+
+theorem wsum_congr (c : List (LV × Int)) (G H : LV → V) (h : ∀ p ∈ c, G p.1 = H p.1) :
+    wsum c G = wsum c H := by
+  unfold wsum
+  congr 1
+  apply List.map_congr_left
+  intro p hp
+  rw [h p hp]
+
+/-- dimension 0 -/
+theorem wsum_dim0 (c : List (LV × Int)) (G : LV → V) (h0 : ∀ p ∈ c, p.1 = []) :
+    wsum c G = domSum c [] • G [] := by
+  induction c with
+  | nil => simp [wsum_nil, domSum_nil]
+  | cons p c ih =>
+    rw [wsum_cons, domSum_cons, ih (fun q hq => h0 q (List.mem_cons_of_mem _ hq)),
+      h0 p (List.mem_cons_self ..)]
+    simp [leAll, add_zsmul]
+
+/-- raising the cap of the first coordinate by one -/
+theorem wsum_cap_succ (y : Int) (c : List (LV × Int)) (G : LV → V) :
+    wsum (cap (y + 1) c) G
+      = wsum (cap y c) G + wsum (tlGe (y + 1) c) (fun l => G ((y + 1) :: l))
+          - wsum (tlGe (y + 1) c) (fun l => G (y :: l)) := by
+  induction c with
+  | nil => simp [cap_nil, tlGe_nil, wsum_nil]
+  | cons p c ih =>
+    rw [cap_cons, cap_cons, tlGe_cons, wsum_cons, wsum_cons, ih]
+    by_cases h : y + 1 ≤ p.1.headD 0
+    · rw [if_pos h, wsum_cons, wsum_cons]
+      have h1 : min (p.1.headD 0) (y + 1) = y + 1 := by omega
+      have h2 : min (p.1.headD 0) y = y := by omega
+      simp only [h1, h2]
+      abel
+    · rw [if_neg h]
+      have h1 : min (p.1.headD 0) (y + 1) = min (p.1.headD 0) y := by omega
+      simp only [h1]
+      abel
+
+/-- cap at (or below) all first coordinates -/
+theorem wsum_cap_base (y : Int) (c : List (LV × Int)) (G : LV → V) (hge : ∀ p ∈ c, y ≤ p.1.headD 0) :
+    wsum (cap y c) G = wsum (tlGe y c) (fun l => G (y :: l)) := by
+  induction c with
+  | nil => simp [cap_nil, tlGe_nil, wsum_nil]
+  | cons p c ih =>
+    have h := hge p (List.mem_cons_self ..)
+    rw [cap_cons, tlGe_cons, if_pos h, wsum_cons, wsum_cons,
+      ih (fun q hq => hge q (List.mem_cons_of_mem _ hq))]
+    have h1 : min (p.1.headD 0) y = y := by omega
+    simp only [h1]
+
+/-- a cap that `G` does not see -/
+theorem wsum_cap_eq (κ : Int) (k' : LV) (c : List (LV × Int)) (G : LV → V)
+    (hne : ∀ p ∈ c, p.1 ≠ []) (hG : ∀ l, G l = G (meet l (κ :: k'))) :
+    wsum (cap κ c) G = wsum c G := by
+  induction c with
+  | nil => rfl
+  | cons p c ih =>
+    rw [cap_cons, wsum_cons, wsum_cons, ih (fun q hq => hne q (List.mem_cons_of_mem _ hq))]
+    congr 2
+    obtain ⟨l, w⟩ := p
+    cases l with
+    | nil => exact absurd rfl (hne ([], w) (List.mem_cons_self ..))
+    | cons x l =>
+      simp only [List.headD_cons, List.tail_cons]
+      rw [hG (x :: l), hG (min x κ :: l), meet_cons, meet_cons]
+      congr 2
+      omega
+
+/-- the statement in one dimension more, first coordinate capped at `lmin + j` -/
+theorem collapse_step (lmin : Int) (k' : LV)
+    (IH : ∀ (c : List (LV × Int)) (G : LV → V),
+      (∀ p ∈ c, p.1.length = k'.length ∧ geAll lmin p.1) →
+      (∀ l, G l = G (meet l k')) →
+      (∀ t : LV, t.length = k'.length → geAll lmin t → leAll t k' = true → domSum c t = 1) →
+      wsum c G = G k')
+    (c : List (LV × Int)) (hshape : ∀ p ∈ c, p.1.length = k'.length + 1 ∧ geAll lmin p.1)
+    (G : LV → V) (hG : ∀ (z : Int) (l : LV), G (z :: l) = G (z :: meet l k'))
+    (j : Nat)
+    (hD : ∀ (y : Int) (t : LV), lmin ≤ y → y ≤ lmin + j → t.length = k'.length → geAll lmin t →
+      leAll t k' = true → domSum c (y :: t) = 1) :
+    wsum (cap (lmin + j) c) G = G ((lmin + j) :: k') := by
+  have hne : ∀ p ∈ c, p.1 ≠ [] := by
+    intro p hp h
+    have := (hshape p hp).1
+    rw [h] at this
+    simp at this
+  have key : ∀ (y z : Int), lmin ≤ y → y ≤ lmin + j →
+      wsum (tlGe y c) (fun l => G (z :: l)) = G (z :: k') := by
+    intro y z h1 h2
+    apply IH (tlGe y c) (fun l => G (z :: l)) (shape_tlGe lmin k'.length y c hshape)
+    · intro l; exact hG z l
+    · intro t ht hmin hle
+      rw [domSum_tlGe y t c hne]
+      exact hD y t h1 h2 ht hmin hle
+  induction j with
+  | zero =>
+    have hge : ∀ p ∈ c, lmin ≤ p.1.headD 0 := by
+      intro p hp
+      obtain ⟨l, w⟩ := p
+      cases l with
+      | nil => exact absurd rfl (hne ([], w) hp)
+      | cons x l => exact (hshape _ hp).2 x (List.mem_cons_self ..)
+    simp only [Nat.cast_zero, add_zero] at key ⊢
+    rw [wsum_cap_base lmin c G hge]
+    exact key lmin lmin (le_refl _) (le_refl _)
+  | succ j ih =>
+    have hcast : lmin + ((j + 1 : Nat) : Int) = (lmin + j) + 1 := by push_cast; ring
+    rw [hcast] at key ⊢
+    have hj : (0 : Int) ≤ j := Int.natCast_nonneg j
+    rw [wsum_cap_succ, key (lmin + j + 1) (lmin + j + 1) (by omega) (le_refl _),
+      key (lmin + j + 1) (lmin + j) (by omega) (le_refl _)]
+    rw [ih (fun y t h1 h2 => hD y t h1 (by push_cast; omega))
+        (fun y z h1 h2 => key y z h1 (by omega))]
+    abel
+
+theorem collapse_aux (lmin : Int) : ∀ (k : LV) (c : List (LV × Int)) (G : LV → V),
+    geAll lmin k →
+    (∀ p ∈ c, p.1.length = k.length ∧ geAll lmin p.1) →
+    (∀ l, G l = G (meet l k)) →
+    (∀ t : LV, t.length = k.length → geAll lmin t → leAll t k = true → domSum c t = 1) →
+    wsum c G = G k
+  | [], c, G, _, hshape, _, hD => by
+      rw [wsum_dim0 c G (fun p hp => List.eq_nil_of_length_eq_zero (hshape p hp).1),
+        hD [] rfl (fun x hx => by simp at hx) rfl, one_zsmul]
+  | κ :: k', c, G, hk, hshape, hG, hD => by
+      have hκ : lmin ≤ κ := hk κ (List.mem_cons_self ..)
+      have hk' : geAll lmin k' := fun x hx => hk x (List.mem_cons_of_mem _ hx)
+      have hne : ∀ p ∈ c, p.1 ≠ [] := by
+        intro p hp h
+        have := (hshape p hp).1
+        rw [h] at this
+        simp at this
+      obtain ⟨j, rfl⟩ : ∃ j : Nat, κ = lmin + j := ⟨(κ - lmin).toNat, by omega⟩
+      rw [← wsum_cap_eq (lmin + j) k' c G hne hG]
+      apply collapse_step lmin k'
+        (fun c G h1 h2 h3 => collapse_aux lmin k' c G hk' h1 h2 h3) c hshape G
+      · intro z l
+        rw [hG (z :: l), hG (z :: meet l k'), meet_cons, meet_cons, meet_idem]
+      · intro y t h1 h2 ht hmin hle
+        apply hD (y :: t)
+        · simp [ht]
+        · intro x hx
+          rcases List.mem_cons.1 hx with rfl | hx
+          · exact h1
+          · exact hmin x hx
+        · simp [leAll, h2, hle]
+
+end
 
 theorem comb_collapse {V : Type} [AddCommGroup V]
     (dim : Nat) (lmin : Int) (c : List (LV × Int)) (J : LV → Prop) [DecidablePred J]
@@ -22,6 +271,112 @@ theorem comb_collapse {V : Type} [AddCommGroup V]
     (hid : ∀ t : LV, t.length = dim → geAll lmin t → domSum c t = if J t then 1 else 0)
     (k : LV) (hk : k.length = dim) (hkmin : geAll lmin k) (hkJ : J k)
     (F : LV → V) (hF : ∀ p ∈ c, F p.1 = F (meet p.1 k)) :
-    (c.map fun p => p.2 • F p.1).sum = F k := sorry
+    (c.map fun p => p.2 • F p.1).sum = F k := by
+  subst hk
+  have h := collapse_aux lmin k c (fun l => F (meet l k)) hkmin hshape
+    (fun l => by simp only [meet_idem])
+    (fun t ht hmin hle => by
+      rw [hid t ht hmin, if_pos (hJdown t k ht rfl hmin hle hkJ)])
+  simp only [meet_self] at h
+  rw [← h]
+  exact wsum_congr c F (fun l => F (meet l k)) hF
+
+/-- coefficients sum to 1 -/
+theorem comb_sum_one
+    (dim : Nat) (lmin : Int) (c : List (LV × Int)) (J : LV → Prop) [DecidablePred J]
+    (hshape : ∀ p ∈ c, p.1.length = dim ∧ geAll lmin p.1)
+    (hJdown : ∀ a b : LV, a.length = dim → b.length = dim → geAll lmin a → leAll a b = true → J b → J a)
+    (hid : ∀ t : LV, t.length = dim → geAll lmin t → domSum c t = if J t then 1 else 0)
+    (k : LV) (hk : k.length = dim) (hkmin : geAll lmin k) (hkJ : J k) :
+    (c.map (·.2)).sum = 1 := by
+  have h := comb_collapse (V := Int) dim lmin c J hshape hJdown hid k hk hkmin hkJ (fun _ => 1)
+    (fun _ _ => rfl)
+  simpa using h
+
+/-- point-wise coefficient sum: if membership of a point in the component grid of level `l` is `leAll k l`
+for a level `k ∈ J` (`k` = the level of the point), the coefficients of the grids containing the point sum
+to 1 (this is `hid` at `t = k`) -/
+theorem comb_pointwise
+    (dim : Nat) (lmin : Int) (c : List (LV × Int)) (J : LV → Prop) [DecidablePred J]
+    (hid : ∀ t : LV, t.length = dim → geAll lmin t → domSum c t = if J t then 1 else 0)
+    (k : LV) (hk : k.length = dim) (hkmin : geAll lmin k) (hkJ : J k) :
+    ((c.filter (fun p => leAll k p.1)).map (·.2)).sum = 1 := by
+  have h := hid k hk hkmin
+  rw [if_pos hkJ] at h
+  exact h
+
+/-- rational-valued `F`: multiplication instead of `•` -/
+theorem comb_collapse_rat
+    (dim : Nat) (lmin : Int) (c : List (LV × Int)) (J : LV → Prop) [DecidablePred J]
+    (hshape : ∀ p ∈ c, p.1.length = dim ∧ geAll lmin p.1)
+    (hJdown : ∀ a b : LV, a.length = dim → b.length = dim → geAll lmin a → leAll a b = true → J b → J a)
+    (hid : ∀ t : LV, t.length = dim → geAll lmin t → domSum c t = if J t then 1 else 0)
+    (k : LV) (hk : k.length = dim) (hkmin : geAll lmin k) (hkJ : J k)
+    (F : LV → Rat) (hF : ∀ p ∈ c, F p.1 = F (meet p.1 k)) :
+    (c.map fun p => (p.2 : Rat) * F p.1).sum = F k := by
+  have h := comb_collapse dim lmin c J hshape hJdown hid k hk hkmin hkJ F hF
+  simpa only [zsmul_eq_mul] using h
+
+/-- integer-valued `F` -/
+theorem comb_collapse_int
+    (dim : Nat) (lmin : Int) (c : List (LV × Int)) (J : LV → Prop) [DecidablePred J]
+    (hshape : ∀ p ∈ c, p.1.length = dim ∧ geAll lmin p.1)
+    (hJdown : ∀ a b : LV, a.length = dim → b.length = dim → geAll lmin a → leAll a b = true → J b → J a)
+    (hid : ∀ t : LV, t.length = dim → geAll lmin t → domSum c t = if J t then 1 else 0)
+    (k : LV) (hk : k.length = dim) (hkmin : geAll lmin k) (hkJ : J k)
+    (F : LV → Int) (hF : ∀ p ∈ c, F p.1 = F (meet p.1 k)) :
+    (c.map fun p => p.2 * F p.1).sum = F k := by
+  have h := comb_collapse dim lmin c J hshape hJdown hid k hk hkmin hkJ F hF
+  simpa only [zsmul_eq_mul, Int.cast_id] using h
+
+/-- The hypotheses are satisfiable on a non-trivial family: the 2-D scheme with index set
+`{(1,1),(1,2),(2,1)}`, `lmin = 1`, and the point level `k = (1,2)`. -/
+example {V : Type} [AddCommGroup V] (F : LV → V) (h21 : F [2, 1] = F [1, 1]) :
+    (([([1, 2], 1), ([2, 1], 1), ([1, 1], -1)] : List (LV × Int)).map fun p => p.2 • F p.1).sum
+      = F [1, 2] := by
+  apply comb_collapse 2 1 [([1, 2], 1), ([2, 1], 1), ([1, 1], -1)]
+    (fun t => t ∈ ([[1, 1], [1, 2], [2, 1]] : List LV))
+  · intro p hp
+    simp only [List.mem_cons, List.not_mem_nil, or_false] at hp
+    rcases hp with rfl | rfl | rfl <;> simp [geAll]
+  · intro a b ha hb hmin hle hJ
+    obtain ⟨x, y, rfl⟩ : ∃ x y, a = [x, y] := by
+      match a, ha with
+      | [x, y], _ => exact ⟨x, y, rfl⟩
+    have hx : 1 ≤ x := hmin x (by simp)
+    have hy : 1 ≤ y := hmin y (by simp)
+    simp only [List.mem_cons, List.not_mem_nil, or_false] at hJ
+    rcases hJ with rfl | rfl | rfl <;>
+      simp only [leAll, Bool.and_eq_true, decide_eq_true_eq, and_true] at hle <;>
+      obtain ⟨h1, h2⟩ := hle
+    · have : x = 1 := by omega
+      have : y = 1 := by omega
+      subst_vars; simp
+    · have : x = 1 := by omega
+      have : y = 1 ∨ y = 2 := by omega
+      rcases this with rfl | rfl <;> subst_vars <;> simp
+    · have : y = 1 := by omega
+      have : x = 1 ∨ x = 2 := by omega
+      rcases this with rfl | rfl <;> subst_vars <;> simp
+  · intro t ht hmin
+    obtain ⟨x, y, rfl⟩ : ∃ x y, t = [x, y] := by
+      match t, ht with
+      | [x, y], _ => exact ⟨x, y, rfl⟩
+    have hx : 1 ≤ x := hmin x (by simp)
+    have hy : 1 ≤ y := hmin y (by simp)
+    have hx' : x = 1 ∨ x = 2 ∨ 3 ≤ x := by omega
+    have hy' : y = 1 ∨ y = 2 ∨ 3 ≤ y := by omega
+    rcases hx' with rfl | rfl | hx' <;> rcases hy' with rfl | rfl | hy' <;>
+      simp [domSum_cons, domSum_nil, leAll] <;> omega
+  · rfl
+  · intro x hx; simp at hx; omega
+  · simp
+  · intro p hp
+    simp only [List.mem_cons, List.not_mem_nil, or_false] at hp
+    rcases hp with rfl | rfl | rfl
+    · rfl
+    · exact h21
+    · rfl
 
 end SparseSpace
+
